@@ -70,6 +70,26 @@ func makeValue(t reflect.Type, r *sm64, o ValueOpts, depth int) reflect.Value {
 	case reflect.TypeOf(Color("")):
 		v.SetString(fmt.Sprintf("#%06x", r.next()&0xffffff))
 		return v
+	case reflect.TypeOf(Tree{}):
+		// mostly shallow; one value in six is a chain of 35..120 levels
+		levels := int(r.next() % 3)
+		if r.next()%6 == 0 {
+			levels = 35 + int(r.next()%86)
+		}
+		mk := func(i int) Tree {
+			return Tree{Label: fmt.Sprintf("t%d-%x", i, r.next()&0xff), Vals: []int{i, int(r.next() % 100)}, M: map[string]int{"lvl": i}}
+		}
+		root := mk(0)
+		cur := &root
+		for i := 1; i <= levels; i++ {
+			cur.Sub = []Tree{mk(i)}
+			if i%7 == 0 {
+				cur.Sub = append(cur.Sub, mk(-i)) // a sibling leaf now and then
+			}
+			cur = &cur.Sub[0]
+		}
+		v.Set(reflect.ValueOf(root))
+		return v
 	case reflect.TypeOf(Stamp{}):
 		v.Set(reflect.ValueOf(Stamp{Major: int(r.next() % 100), Minor: int(r.next() % 1000), Note: fmt.Sprintf("n%x", r.next()&0xffff)}))
 		return v
